@@ -8,15 +8,16 @@ package c07
 import (
 	"encoding/json"
 	"fmt"
+	"sort"
 	"strings"
 
 	"github.com/openconfig/goyang/pkg/yang"
 	"verif/mc/core"
-	"verif/mc/props/scalekit"
 	"verif/mc/dump"
 	"verif/mc/explore"
 	"verif/mc/gen/fam"
 	"verif/mc/gen/ircmp"
+	"verif/mc/props/scalekit"
 )
 
 type Input struct {
@@ -65,6 +66,16 @@ func check(augs []fam.AugSpec) (f *fail, wantErr bool, execs int) {
 			dump.Entry(&sb, yang.ToEntry(ms.Modules["a"]), "", dump.Options{}, map[*yang.Entry]bool{})
 			if first == "" {
 				first = sb.String()
+				// the trees dropped and the augments applied again by hand, with the calls a
+				// processing run makes (Augment in rounds, FixChoice, the stragglers): the same graft
+				if p := byHand(ms); p != "" {
+					f = &fail{"augments-applied-by-hand-after-ClearEntryCache", "no errors", p}
+					return
+				}
+				if d := ircmp.Compare(w.Trees["a"], yang.ToEntry(ms.Modules["a"]), what); len(d) > 0 {
+					f = &fail{"tree-differs-from-reference-graft:applied-by-hand-after-ClearEntryCache", "the reference tree", strings.Join(d, "\n")}
+					return
+				}
 			} else if sb.String() != first {
 				f = &fail{"outcome-depends-on-load-order", first, sb.String()}
 				return
@@ -75,6 +86,58 @@ func check(augs []fam.AugSpec) (f *fail, wantErr bool, execs int) {
 		return &fail{"panic@" + core.LastPanicSite, "no panic", pt}, wantErr, execs
 	}
 	return f, wantErr, execs
+}
+
+// byHand drops the entry trees and applies the augments as Modules.Process does.
+func byHand(ms *yang.Modules) string {
+	ms.ClearEntryCache()
+	var mods []*yang.Module
+	seen := map[*yang.Module]bool{}
+	for _, mm := range []map[string]*yang.Module{ms.Modules, ms.SubModules} {
+		var ks []string
+		for k := range mm {
+			ks = append(ks, k)
+		}
+		sort.Strings(ks)
+		for _, k := range ks {
+			if !seen[mm[k]] {
+				seen[mm[k]] = true
+				mods = append(mods, mm[k])
+			}
+		}
+	}
+	all := append([]*yang.Module{}, mods...)
+	for len(mods) > 0 {
+		processed := 0
+		for i := 0; i < len(mods); {
+			p, s := yang.ToEntry(mods[i]).Augment(false)
+			processed += p
+			if s == 0 {
+				mods[i] = mods[len(mods)-1]
+				mods = mods[:len(mods)-1]
+				continue
+			}
+			i++
+		}
+		if processed == 0 {
+			break
+		}
+	}
+	for _, m := range all {
+		yang.ToEntry(m).FixChoice()
+	}
+	for _, m := range mods {
+		yang.ToEntry(m).Augment(true)
+	}
+	for _, m := range all {
+		yang.ToEntry(m).FixChoice()
+	}
+	for _, m := range all {
+		if errs := yang.ToEntry(m).GetErrors(); len(errs) > 0 {
+			return m.Name + ": " + dump.Errors(errs)
+		}
+	}
+	return ""
 }
 
 const nShards = 32
